@@ -12,7 +12,7 @@ from .core import TranslatorError
 
 OUTPUT = "HttpRespGen.v"
 ITEMS = ["EMPTY_BODY_STATUS_CODES", "lax field-value check", "status code syntax", "close defaults",
-         "lax = not DEBUG / SEP", "rstrip(CR) of lax lines", "lax chunk-size strip", "optional CR skipping",
+         "lax = not DEBUG / SEP", "rstrip(CR) of lax lines and their measured length (last CR not counted)", "lax chunk-size strip", "optional CR skipping",
          "response _is_chunked_te", "obs-fold accounting", "feed_eof rules", "response_with_body / read_until_eof"]
 P = "aiohttp/http_parser.py"
 
@@ -201,11 +201,10 @@ def _line_handling():
     fd = _flat(ast.unparse(core.find_function(P, "feed_data", cls="HttpParser")))
     for want in ("pos = data.find(SEP, start_pos)",
                  "if pos == start_pos and (not self._lines):",
-                 "if SEP == b'\\n':\n                    line = line.rstrip(b'\\r')",
-                 "if len(line) > max_line_length:",
+                 "line_len = len(line)\nif SEP == b'\\n':\nline_len -= line.endswith(b'\\r')\nline = line.rstrip(b'\\r')\nif line_len > max_line_length:",
                  "if len(self._lines) > self.max_headers:",
                  "max_trailers = self.max_headers - len(self._lines)",
-                 "if len(self._tail) > max_line_length:",
+                 "tail_len = len(self._tail) - self._tail.endswith(b'\\r')\nif tail_len > max_line_length:",
                  "max_line_length = self.max_field_size if self._lines else self.max_line_size",
                  "if self._should_close:\n                    raise BadHttpMessage('Data after `Connection: close`')",
                  "method = getattr(msg, 'method', self.method)",
@@ -222,17 +221,17 @@ def _line_handling():
                  "if not re.fullmatch(HEXDIGITS, size_b):",
                  "size = int(bytes(size_b), 16)",
                  "if size == 0:\n    self._chunk = ChunkState.PARSE_TRAILERS\nelse:\n    self._chunk = ChunkState.PARSE_CHUNKED_CHUNK",
-                 "if self._lax and chunk.startswith(b'\\r'):\n                    chunk = chunk[1:]\n                if chunk[:len(SEP)] == SEP:",
+                 "if self._lax and chunk.startswith(b'\\r'):\nif len(chunk) == 1:\nself._chunk_tail = chunk\nself._paused = False\nreturn (PayloadState.PAYLOAD_NEEDS_INPUT, b'')\nchunk = chunk[1:]\nif chunk[:len(SEP)] == SEP:",
                  "elif len(chunk) >= len(SEP) or chunk != SEP[:len(chunk)]:",
-                 "if SEP == b'\\n':\n                    line = line.rstrip(b'\\r')\n                if len(line) > self._max_field_size:",
+                 "line_len = len(line)\nif SEP == b'\\n':\nline_len -= line.endswith(b'\\r')\nline = line.rstrip(b'\\r')\nif line_len > self._max_field_size:",
                  "if len(self._trailer_lines) > self._max_trailers:",
                  "trailers, raw_trailers = self._headers_parser.parse_headers(self._trailer_lines)",
-                 "if len(self._chunk_tail) > max_line_length:"):
+                 "tail_len = len(self._chunk_tail)\nif SEP == b'\\r\\n' or self._chunk != ChunkState.PARSE_CHUNKED_SIZE:\ntail_len -= self._chunk_tail.endswith(b'\\r')\nif tail_len > max_line_length:"):
         if _flat(want) not in pp:
             raise TranslatorError(f"HttpPayloadParser.feed_data: expected code missing: {want}")
     if pp.count("chunk.startswith(b'\\r')") != 1:
         raise TranslatorError("HttpPayloadParser.feed_data: the optional CR is expected to be skipped in exactly one place "
-                              "(after chunk data; nothing is skipped after the last-chunk line)")
+                              "(after chunk data, a CR that ends the read staying buffered; nothing is skipped after the last-chunk line)")
     init = _flat(ast.unparse(core.find_function(P, "__init__", cls="HttpPayloadParser")))
     for want in ("if not response_with_body:\n    self._type = ParseState.PARSE_NONE\n    real_payload.feed_eof()\n    self.done = True",
                  "elif chunked:\n    self._type = ParseState.PARSE_CHUNKED",
@@ -272,7 +271,10 @@ def generate() -> str:
                f"Definition close_default_bodiless (c : N) : bool := {_membership(cl, [(lo, hi)])}.\n")
     _lax_mode()
     _line_handling()
+    out.append("(* a lax line, complete or buffered, is measured as len(line) - line.endswith(CR) (Model/HttpResp.v len1);\n"
+               "   a buffered lax chunk-size line is measured raw like the complete one: shapes checked *)\n"
+               "Definition lax_line_length_discounts_one_cr : bool := true.\n")
     out.append("(* lax = not DEBUG; SEP = LF; lines are rstrip(CR)'ed; chunk sizes are strip()'ed; the optional CR after\n"
-               "   chunk data is skipped, nothing after the last-chunk line; _is_chunked_te by rsplit: shapes checked *)\n"
+               "   chunk data is skipped unless it ends the read (then it stays buffered), nothing after the last-chunk line; _is_chunked_te by rsplit: shapes checked *)\n"
                "Definition lax_shapes_checked : bool := true.\n")
     return "\n".join(out)
